@@ -35,8 +35,18 @@
     counter shortcuts, the single-row mask test, the whole-row loop and the table-entry loop;
     both read only and never panic (`Proofs/LowerQuery.lean`).
 
-  PARTIAL: the tree counters at the end of
-  concurrent interleavings are carried by the correspondence (statistics, `stats_at`, `is_free`,
+  * `conc_quiescent_upper_invariant` — **every quiescent state of every interleaving** of any
+    number of threads running public calls (get on every path, put of held blocks at their order,
+    drain) satisfies the sequential upper invariant again (`Proofs/ConcUpper*.lean`: upper ghost
+    state per thread — frames taken out of the counters, carried reservations —, legal
+    transitions of tree entries and slots, invariance of the free-or-held count under every step
+    of the lower allocator); hence `conc_quiescent_fast_total` (tree_stats + hidden = stats) and
+    `conc_quiescent_validate_passes` at the quiescent end of every interleaving in which every
+    call returned.
+
+  PARTIAL: the conclusion is stated for interleavings in which every call has returned (a call
+  that trapped keeps what it carried); frees of parts of huge allocations (K1) and `change_tree`
+  under interleavings are carried by the correspondence (statistics, `stats_at`, `is_free`,
   `tree_stats` and `validate()` compared with the ownership model after every call of every
   sequential history and at the quiescent end of every explored interleaving).
 -/
@@ -46,6 +56,7 @@ import LLFreeV.Proofs.TreeStats
 import LLFreeV.Proofs.FastTotal
 import LLFreeV.Proofs.Validate
 import LLFreeV.Proofs.LowerQuery
+import LLFreeV.Proofs.ConcUpperThreads
 namespace LLFree.C04
 open LLFree Prog
 
@@ -189,5 +200,35 @@ theorem conc_quiescent_counters_exact (c : Cfg) (ok : GeomOk16 c.geom) (m : Mem)
     Huge.isHuge (m'.hugeE h) = false → m'.hugeE h = zerosIn c.geom m' h := by
   obtain ⟨_, hok⟩ := lower_threads_safe ok m inv n retries cmds sched hsched
   exact hok.quiescent hdone h
+
+/-- **Quiescent end of every interleaving (whole allocator)**: threads `k < n` run arbitrary
+    lists of public calls from a state satisfying the upper invariant; under every schedule,
+    once all of them have returned, the upper invariant holds again with the same hidden frames:
+    tree counter + reservations + hidden = free frames of every tree, reserved entries are exactly
+    those named by a slot, classes admissible, the lower invariant holds. -/
+theorem conc_quiescent_upper_invariant (c : Cfg) (ok : CfgOk c) (H : Nat → Nat) (m : Mem) (inv : UpperInv0 c H m)
+    (n : Nat) (cmds : Nat → List UCmd) (hvalid : ∀ k, ∀ x ∈ cmds k, x.valid c) (sched : List Nat) (hsched : ∀ k ∈ sched, k < n)
+    (hdone : ∀ k, k < n → ∃ held, ((concRun sched (m, fun k => Th.at (runU c (cmds k) ⟨[], []⟩))).2 k).step
+      (concRun sched (m, fun k => Th.at (runU c (cmds k) ⟨[], []⟩))).1 = .done held) :
+    UpperInv0 c H (concRun sched (m, fun k => Th.at (runU c (cmds k) ⟨[], []⟩))).1 :=
+  upper_conc_quiescent ok H m inv n cmds hvalid sched hsched hdone
+
+/-- … so the fast total plus the hidden frames is the exact total there -/
+theorem conc_quiescent_fast_total (c : Cfg) (ok : CfgOk c) (H : Nat → Nat) (m : Mem) (inv : UpperInv0 c H m)
+    (n : Nat) (cmds : Nat → List UCmd) (hvalid : ∀ k, ∀ x ∈ cmds k, x.valid c) (sched : List Nat) (hsched : ∀ k ∈ sched, k < n)
+    (hdone : ∀ k, k < n → ∃ held, ((concRun sched (m, fun k => Th.at (runU c (cmds k) ⟨[], []⟩))).2 k).step
+      (concRun sched (m, fun k => Th.at (runU c (cmds k) ⟨[], []⟩))).1 = .done held) :
+    let m' := (concRun sched (m, fun k => Th.at (runU c (cmds k) ⟨[], []⟩))).1
+    Runs m' (treeStats c) (fun s m'' => m' = m'' ∧ s.freeFrames + blockSum H c.ntrees = m'.freeTotal c.geom c.ntrees) :=
+  fast_total_exact c H ok _ (upper_conc_quiescent ok H m inv n cmds hvalid sched hsched hdone)
+
+/-- … and `validate()` passes there when no tree is offline -/
+theorem conc_quiescent_validate_passes (c : Cfg) (ok : CfgOk c) (m : Mem) (inv : UpperInv0 c (fun _ => 0) m)
+    (n : Nat) (cmds : Nat → List UCmd) (hvalid : ∀ k, ∀ x ∈ cmds k, x.valid c) (sched : List Nat) (hsched : ∀ k ∈ sched, k < n)
+    (hdone : ∀ k, k < n → ∃ held, ((concRun sched (m, fun k => Th.at (runU c (cmds k) ⟨[], []⟩))).2 k).step
+      (concRun sched (m, fun k => Th.at (runU c (cmds k) ⟨[], []⟩))).1 = .done held) :
+    let m' := (concRun sched (m, fun k => Th.at (runU c (cmds k) ⟨[], []⟩))).1
+    Runs m' (validate c) (fun _ m'' => m' = m'') :=
+  validate_passes c ok _ (upper_conc_quiescent ok _ m inv n cmds hvalid sched hsched hdone)
 
 end LLFree.C04
